@@ -60,7 +60,7 @@ where
     | f + 1, fld :: rest => (fld.name, zeroOf env f fld.ty) :: zeroFields env f rest
 
 /-- bytes of a string as Go's `len` sees them -/
-def utf8Len (s : String) : Nat := s.utf8ByteSize
+def utf8Len (s : String) : Nat := (s.toList.map Char.utf8Size).sum
 
 /-- field of the decoded shadow value: `plain.F`, or `plain` itself for a named primitive -/
 def fieldOf (plain : GoVal) (field : String) : GoVal :=
